@@ -43,6 +43,9 @@ def programs():
       # the executor abandons it and the group's teardown must still run
       'stubborn': program([group('g1', [P('s1')], [P('m1', plugs=('x',)), P('m2')], [P('t1'), P('t2')]),
                            P('after')]),
+      # no abort at all: the main body m1 returns at the very moment its timeout expires (see make_run);
+      # whether the executor sees a timeout or the body's own result, the entered group is torn down once
+      'deadline': program([group('g1', [], [P('m1', plugs=('x',))], [P('t1')])]),
       'nested': program([group('g1', [P('s1', plugs=('x',)), group('g0', [], [P('sm')], [P('t0')])],
                                [P('m1')], [P('t1')]), P('after')]),
   }
@@ -55,6 +58,7 @@ def programs():
 GROUPS = {
     'group': [(('s1',), 'm1', ('t1', 't2'))],
     'stubborn': [(('s1',), 'm1', ('t1', 't2'))],
+    'deadline': [((), 'm1', ('t1',))],
     'start': [((), 'm1', ('t1',))],
     'nested': [((), 'sm', ('t0',)), (('s1', 'sm', 't0'), 'm1', ('t1',))],
 }
@@ -64,6 +68,7 @@ SCRIPTS = {
     'plain': {'p1': 'C', 'p2': 'C', 'p3': 'C'},
     'group': {'s1': 'C', 'm1': 'C', 'm2': 'C', 't1': 'C', 't2': 'C', 'after': 'C'},
     'stubborn': {'s1': 'C', 'm1': 'C', 'm2': 'C', 't1': 'C', 't2': 'C', 'after': 'C'},
+    'deadline': {'m1': 'C', 't1': 'C'},
     'repeat': {'r1': 'RRC', 'q1': 'C'},
     'subtest': {'a1': 'C', 'b1': 'C', 'c1': 'C'},
     'start': {'st': 'C', 'p1': 'C', 'm1': 'C', 't1': 'C'},
@@ -76,7 +81,11 @@ def make_run(prog_name, source, naborts):
   def run(policy):
     from vf import build, sched
     import openhtf as htf
-    s = sched.Sched(policy=policy, max_steps=60000, trace_events=True)
+    deadline = prog_name == 'deadline'
+    # deadline race: every statement of threads.py is a scheduling point as well (the kill of the timed-out
+    # phase thread races with that thread's own exit)
+    s = sched.Sched(policy=policy, max_steps=60000, trace_events=True,
+                    trace_files=('openhtf/util/threads.py',) if deadline else (), free_wake=deadline)
     box = {}
 
     def main():
@@ -96,10 +105,15 @@ def make_run(prog_name, source, naborts):
             except _threads.ThreadTerminationError:
               pass
           return
+        if deadline:
+          if name == 'm1':
+            import time
+            time.sleep(1.0)
+          return
         sched.point('body')
         sched.point('body')
       ctx.hooks['body'] = body_hook
-      test, start = build.make_test(ctx, prog)
+      test, start = build.make_test(ctx, prog, timeout_s=1 if deadline else None)
       out = []
 
       def cb(rec):
@@ -145,7 +159,7 @@ def make_run(prog_name, source, naborts):
             ctx.events.append(('abort-call', k))
             test.abort_from_sig_int()
             ctx.events.append(('abort-ret', k))
-      th = threading.Thread(target=sig, name='sig')
+      th = threading.Thread(target=sig if naborts else (lambda: None), name='sig')
       th.start()
       try:
         ret = test.execute(test_start=start)
@@ -201,7 +215,7 @@ def judge(prog_name, naborts, box, failure):
   open_bodies = set()
   for e in ev:
     if e[0] == 'body':
-      if open_bodies and prog_name != 'stubborn':     # an abandoned body keeps running beside the teardown by design
+      if open_bodies and prog_name not in ('stubborn', 'deadline'):     # an abandoned body keeps running beside the teardown by design
         bad.append('two phase bodies of one test run at once')
       open_bodies.add((e[1], e[2]))
     elif e[0] == 'body_end':
@@ -229,7 +243,7 @@ def judge(prog_name, naborts, box, failure):
     bad.append('output callbacks received the record %s times' % box.get('ncb'))
   # teardown of an entered group still runs (single abort); a group whose setup did not complete
   # runs neither main nor teardown
-  if naborts == 1 and prog_name in GROUPS and rec is not None:
+  if naborts <= 1 and prog_name in GROUPS and rec is not None:
     from vf import build
     res_of = {}
     for p in rec.phases:
@@ -244,7 +258,7 @@ def judge(prog_name, naborts, box, failure):
       for t in tds:
         cnt = sum(1 for e in ev if e[0] == 'body' and e[1] == t)
         if entered and cnt != 1:
-          bad.append('teardown phase of an entered group ran %d times after a single abort' % cnt)
+          bad.append('teardown phase of an entered group ran %d times after %s' % (cnt, 'a single abort' if naborts else 'its main phase reached its timeout'))
         if setup and reached and not entered and cnt:
           bad.append('teardown phase of a group ran although its setup did not complete')
   plugs_new = [e for e in ev if e[0] == 'plug' and e[1] == 'new']
